@@ -585,6 +585,12 @@ func (w *Reconciler) handlePendingTasks(
 			continue
 		}
 
+		// Also skip if the task was previously observed to be running, since the
+		// running timestamp may be lost between task updates.
+		if existing := jobutil.FindTaskRef(rj, task); existing != nil && !existing.RunningTimestamp.IsZero() {
+			continue
+		}
+
 		// Skip if task is not yet overdue.
 		if deadline := ref.CreationTimestamp.Add(pendingTimeout); deadline.After(now) {
 			w.enqueueAfter(rj, "task_pending_timeout", time.Until(deadline))
